@@ -94,10 +94,12 @@ theorem validStrip_sound {M M' : Machine} {obj : HostVal} {c c' : Bytes} (hnd : 
             rw [hi0] at f
             refine ⟨1, 0, ip + 1, ip', stack, { st with polls := st.polls + 1 }, st', Nat.one_pos,
               steps_one (y := (ip + 1, stack, { st with polls := st.polls + 1 })) (fun fu => turn_nop hnd f stack st fu),
-              .zero _, ⟨hc, ?_⟩, ⟨hst.1, hst.2.1, hst.2.2.1, fun e => by cases e⟩⟩
-            have hs : i.size = 1 := by rw [hi0]; rfl
-            rw [hs] at hnext
-            exact hnext
+              .zero _, ⟨hc, ?_⟩, ⟨hst.1, hst.2.1, hst.2.2.1, fun e => by cases e⟩, Or.inr ⟨by omega, ?_⟩⟩
+            · have hs : i.size = 1 := by rw [hi0]; rfl
+              rw [hs] at hnext
+              exact hnext
+            · have := f.fits
+              simpa [Op.length] using this
           · have hnop' : (i.op == Op.nop) = false := by simpa using hnop
             simp only [hnop, hnop', Bool.false_eq_true, ↓reduceIte, Bool.and_eq_true, Bool.or_eq_true, beq_iff_eq,
               bne_iff_ne, ne_eq, decide_eq_true_eq] at hc
